@@ -80,6 +80,11 @@ def make_get_dtype_func(
             if callable(res):
                 return res(get_args(t))
 
+        # A NumPy scalar type: the argument of a generic type whose parameter is the
+        # element type of an array (e.g. MyGeneric[np.uint64])
+        if isinstance(t, type) and issubclass(t, np.generic):
+            return np.dtype(t)
+
         raise RuntimeError(f"Cannot find dtype for {t}")
 
     def _get_union_dtype(args: tuple[type, ...]) -> np.dtype[Any]:
